@@ -408,6 +408,44 @@ theorem rejects_spec (p : String) (d : DocV1) (h : Spec.mustReject d = true) :
     · obtain ⟨n, hn, hc⟩ := incl _ hi
       exact include_snapshots_checked p d n hc (Or.inr (Or.inr (Or.inr (Or.inr ⟨b, hb, hn⟩))))
 
+/-- **C10 (a loaded configuration carries only good crontabs)** "bad crontabs are rejected", read on the
+result: when a document loads, the crontab of every effective schedule is the declared text, character by
+character (nothing is trimmed or rewritten between the check and the effective configuration), and each
+declared text is a good crontab — no zero step, and the cron library (the one the schedule manager hands the
+effective text to) parses that very text. So a check that validates another spelling than the one that is
+stored (`TrimSpace`, case folding, …) cannot satisfy this. The driver's `oracle schedusable` line evaluates
+`Spec.goodCrontab` on the effective text the implementation showed. -/
+theorem loaded_crontabs_good (p : String) (d : DocV1) (e : Effective) (h : convertV1 p d = .ok e) :
+    e.scheds.map (·.crontab) = d.scheds.map (·.crontab) ∧
+    ∀ s ∈ d.scheds, Spec.goodCrontab s.crontab s.parseOK = true := by
+  obtain ⟨-, -, -, -, hsc, -, -, -, -, -, -, hs, -, -, -⟩ := convertV1Core_ok true p d e h
+  refine ⟨?_, ?_⟩
+  · rw [hs]
+    simp [List.map_map, Function.comp_def, SchedEff.merged, convertSched]
+  · intro s hsd
+    have := hsc s hsd
+    simp only [checkSched, parseCrontabOK, Bool.and_eq_true] at this
+    simp only [Spec.goodCrontab, Bool.and_eq_true]
+    exact this.1
+
+/-- **C10 (the validated crontab is the stored crontab — tie to the sources)** In the v1 and the v0 converter the
+expression `CheckSchedule` hands to `ParseCrontab` and the expression `ConvertSchedule` stores in
+`ScheduleEntry.Crontab` are the same field of the declared binding, untransformed (extracted from the sources on
+every run): the model's single `crontab` per schedule — checked and stored — is the code's. -/
+theorem crontab_checked_is_stored :
+    Facts.c10CheckedCrontabV1 = "schV1.Crontab" ∧ Facts.c10StoredCrontabV1 = "schV1.Crontab" ∧
+    Facts.c10CheckedCrontabV0 = "schV0.Crontab" ∧ Facts.c10StoredCrontabV0 = "schV0.Crontab" := by
+  decide
+
+/-- non-vacuity: a descriptor behind a blank is a text the cron library refuses (`parseOK := false` is its
+verdict on `" @hourly"`): rejected; the same descriptor at the first character loads, text unchanged. -/
+example :
+    (∃ err, convertV1 "Fail" { scheds := [{ crontab := " @hourly", parseOK := false }] } = .error err) ∧
+    (∃ e, convertV1 "Fail" { scheds := [{ crontab := "@hourly" }] } = .ok e ∧ e.scheds.map (·.crontab) = ["@hourly"]) ∧
+    Spec.goodCrontab " @hourly" false = false ∧ Spec.goodCrontab "\t*/0 * * * *" true = false ∧
+    Spec.goodCrontab " 0 * * * * " true = true := by
+  refine ⟨⟨_, rfl⟩, ⟨_, rfl, by decide⟩, by decide, by decide, by decide⟩
+
 /-- non-vacuity, and the very input a mutating binding needs: an invalid `namespace.labelSelector` next to a
 valid object selector must be rejected; the same binding with a valid namespace selector loads. -/
 example :
@@ -560,6 +598,18 @@ theorem v0_conversion (d : DocV0) (e : Effective) (h : convertV0 d = .ok e) :
   intro s _
   simp only [Function.comp, convertSchedV0, Facts.c10DefaultSchedName, Facts.c10DefaultQueueV0Sched]
   by_cases hn : s.name = "" <;> simp [hn]
+
+/-- **C10 (a loaded v0 configuration carries only good crontabs)** the v0 analogue of `loaded_crontabs_good`. -/
+theorem loaded_crontabs_good_v0 (d : DocV0) (e : Effective) (h : convertV0 d = .ok e) :
+    e.scheds.map (·.crontab) = d.scheds.map (·.crontab) ∧
+    ∀ s ∈ d.scheds, Spec.goodCrontab s.crontab s.parseOK = true := by
+  obtain ⟨h1, -, -, h4, -⟩ := v0_conversion d e h
+  refine ⟨?_, ?_⟩
+  · have := congrArg (List.map (fun (x : String × String × Bool × String) => x.2.1)) h1
+    simpa [List.map_map, Function.comp_def] using this
+  · intro s hs
+    obtain ⟨a, b⟩ := h4 s hs
+    simp [Spec.goodCrontab, a, b]
 
 /-- Non-vacuity: a document exercising every kind, defaults, `[]` events, priorities, a group shared by
 two kubernetes bindings and a schedule, an include declared and added. -/
